@@ -144,18 +144,7 @@ def run(module, tier, seed, nproc=16):
                 for fut in concurrent.futures.as_completed(futs):
                     results.append(fut.result())
         except BrokenProcessPool:
-            # a worker process died (signal): find the shard by re-running the shards one by one in child processes
-            culprit = None
-            for s in shards:
-                with concurrent.futures.ProcessPoolExecutor(max_workers=1, mp_context=ctxmp, initializer=_init_worker,
-                                                            initargs=(module.__name__, (prop, tier, seed, time.time() + 120))) as one:
-                    try:
-                        one.submit(_work, s).result(timeout=600)
-                    except Exception:
-                        culprit = s
-                        break
-            print("HARNESS-ERROR property=%s a worker process died (fatal signal inside the code under test?) shard=%s" % (prop, json.dumps(culprit)[:400]))
-            return 2
+            return _worker_died(module, main, shards, ctxmp, t0)
     else:
         _init_worker(module.__name__, (prop, tier, seed, deadline))
         for s in shards:
@@ -240,6 +229,42 @@ def run(module, tier, seed, nproc=16):
     return 1 if violations else 0
 
 
+def _dies(module, shard, ctxmp, args):
+    """runs one shard in a child process of its own; True if the child is killed by a signal / exits abnormally"""
+    import concurrent.futures
+    with concurrent.futures.ProcessPoolExecutor(max_workers=1, mp_context=ctxmp, initializer=_init_worker, initargs=(module.__name__, args)) as one:
+        try:
+            one.submit(_work, shard).result(timeout=900)
+            return False
+        except Exception:
+            return True
+
+
+def _worker_died(module, main, shards, ctxmp, t0):
+    """A worker process was killed by a fatal signal inside the code under test.  The shard is identified by re-running the
+    shards one by one in child processes; a shard that kills its process every time is a violation (the call alphabets only
+    contain valid calls, and a crash is not the specified result); one that does not die again is reported as nondeterminism."""
+    prop = module.PROPERTY
+    args = (prop, main.tier, main.seed, time.time() + 600)
+    culprit = None
+    for s in shards:
+        if _dies(module, s, ctxmp, args):
+            culprit = s
+            break
+    if culprit is None or not _dies(module, culprit, ctxmp, args):
+        print("HARNESS-NONDETERMINISM property=%s a worker process died once, but no shard kills its process when re-run alone (shard=%s)" % (prop, json.dumps(culprit)[:300]))
+        return 2
+    os.makedirs(os.path.join(OUTDIR, "replays"), exist_ok=True)
+    path = os.path.join(OUTDIR, "replays", "%s-crash.json" % prop)
+    case = {"sub": "__crash__", "shard": culprit}
+    with open(path, "w") as fh:
+        json.dump({"property": prop, "tier": main.tier, "seed": main.seed, "signature": "crash", "message": "fatal signal while enumerating this shard", "case": case}, fh, indent=1)
+    write_evidence(prop, main.tier, main.seed, module.LEVEL, {"evaluations": 1, "distinct_nontrivial": 1, "rule": module.RULE, "samples": [case], "exhaustive": False,
+                   "caps_hit": ["aborted: the code under test kills the process"], "tree_hash": build.tree_hash()}, module.ASSUMPTIONS, time.time() - t0, 1)
+    print("VIOLATION property=%s replay=%s  # crash: a valid call sequence of shard %s terminates the process with a fatal signal (reproduced twice in isolation)" % (prop, path, json.dumps(culprit)[:300]))
+    return 1
+
+
 def _build_failure(module, ctx, e, t0):
     prop = module.PROPERTY
     os.makedirs(os.path.join(OUTDIR, "replays"), exist_ok=True)
@@ -271,7 +296,11 @@ def _default_builds():
 def replay_file(module, path):
     data = json.load(open(path))
     ctx = Ctx(module.PROPERTY, data.get("tier", "quick"), data.get("seed", 0), time.time() + 3600)
-    msgs = module.replay(ctx, data["case"])
+    if data["case"].get("sub") == "__crash__":
+        died = _dies(module, data["case"]["shard"], multiprocessing.get_context("fork"), (module.PROPERTY, ctx.tier, ctx.seed, time.time() + 600))
+        msgs = ["enumerating this shard kills the process with a fatal signal"] if died else []
+    else:
+        msgs = module.replay(ctx, data["case"])
     if msgs:
         print("VIOLATION property=%s replay=%s  # %s" % (module.PROPERTY, path, "; ".join(msgs)[:500]))
         return 1
